@@ -250,6 +250,13 @@ Proof.
   - apply IH; [exact Hr|]. intros Hin. apply Hx. right. exact Hin.
 Qed.
 
+Lemma Forall2_in_r {A B} (R : A -> B -> Prop) l l' : Forall2 R l l' -> forall y, In y l' -> exists x, In x l /\ R x y.
+Proof.
+  induction 1 as [|x y l l' Hxy _ IH]; intros z Hz; [destruct Hz|].
+  destruct Hz as [<-|Hz]; [exists x; split; [left; reflexivity|exact Hxy]|].
+  destruct (IH z Hz) as (x' & ? & ?). exists x'. split; [right|]; assumption.
+Qed.
+
 (** registerMethod *)
 Definition core_of (svc : bytes) (o : sopts) (md : methdesc) :=
   (method_path svc (md_name md), method_full svc (md_name md), svc, md, o).
@@ -257,7 +264,11 @@ Definition core_of (svc : bytes) (o : sopts) (md : methdesc) :=
 Lemma register_method_inv ms svc o s md s' :
   Inv ms s -> register_method ms svc o s md = Some s' ->
   Inv ms s' /\ map mcore (cs_methods s') = map mcore (cs_methods s) ++ [core_of svc o md] /\
-  ~ In (method_path svc (md_name md)) (map mf_path (cs_methods s)).
+  ~ In (method_path svc (md_name md)) (map mf_path (cs_methods s)) /\
+  exists added, cs_bindings s' = cs_bindings s ++ added /\
+    forall cb, In cb added -> cb_method_path cb = method_path svc (md_name md) /\
+      exists r0 b, md_rule md = Some r0 /\ In b (r_main r0 :: r_additional r0) /\
+                   from_binding ms md (method_path svc (md_name md)) b cb.
 Proof.
   intros HI H. unfold register_method in H.
   set (mpath := method_path svc (md_name md)) in *.
@@ -281,9 +292,13 @@ Proof.
   destruct (md_rule md) as [r|] eqn:Er.
   - assert (HM1 : has_method s1 mpath md).
     { exists mnew. split; [unfold s1; cbn; apply in_app_iff; right; left; reflexivity|split; reflexivity]. }
-    destruct (add_rule_inv _ _ _ _ _ _ HI1 H HM1) as (HI' & Hc' & _).
-    split; [exact HI'|]. split; [rewrite Hc'; exact Hcore1|exact Fresh].
-  - injection H as <-. split; [exact HI1|]. split; [exact Hcore1|exact Fresh].
+    destruct (add_rule_inv _ _ _ _ _ _ HI1 H HM1) as (HI' & Hc' & cb & cbs & Hb' & FBs & _).
+    split; [exact HI'|]. split; [rewrite Hc'; exact Hcore1|]. split; [exact Fresh|].
+    exists (cb :: cbs). split; [exact Hb'|]. intros cb' Hin.
+    destruct (Forall2_in_r _ _ _ FBs cb' Hin) as (b & Hb & FB & Ep). split; [exact Ep|].
+    exists r, b. split; [reflexivity|]. split; [exact Hb|exact FB].
+  - injection H as <-. split; [exact HI1|]. split; [exact Hcore1|]. split; [exact Fresh|].
+    exists []. split; [unfold s1; cbn; rewrite app_nil_r; reflexivity|intros ? []].
 Qed.
 
 Lemma register_methods_inv ms svc o : forall mds s s',
@@ -296,6 +311,35 @@ Proof.
     destruct (register_method_inv _ _ _ _ _ _ HI RM) as (HI1 & Hc1 & _).
     destruct (IH s1 s' HI1 H) as (HI' & Hc'). split; [exact HI'|].
     rewrite Hc', Hc1, <- app_assoc. reflexivity.
+Qed.
+
+(** every entry made while registering services comes from an annotation of its method *)
+Definition anno_prov (ms : list msgdesc) (s : cst) : Prop :=
+  forall cb, In cb (cs_bindings s) ->
+    exists m r0 b, In m (cs_methods s) /\ mf_path m = cb_method_path cb /\ md_rule (mf_desc m) = Some r0 /\
+                   In b (r_main r0 :: r_additional r0) /\ from_binding ms (mf_desc m) (mf_path m) b cb.
+
+Lemma anno_prov_core ms s s' :
+  map mcore (cs_methods s') = map mcore (cs_methods s) -> cs_bindings s' = cs_bindings s -> anno_prov ms s -> anno_prov ms s'.
+Proof.
+  intros Hc Hb P cb Hin. rewrite Hb in Hin. destruct (P cb Hin) as (m & r0 & b & Hm & E1 & E2 & Hb0 & FB).
+  destruct (in_mcore m _ _ (eq_sym Hc) Hm) as (m' & Hm' & Ec). unfold mcore in Ec. injection Ec as ? ? ? ? ?.
+  exists m', r0, b. split; [exact Hm'|]. repeat split; congruence.
+Qed.
+
+Lemma register_method_prov ms svc o s md s' :
+  Inv ms s -> anno_prov ms s -> register_method ms svc o s md = Some s' -> anno_prov ms s'.
+Proof.
+  intros HI P H. destruct (register_method_inv _ _ _ _ _ _ HI H) as (_ & Hc & _ & added & Hb & Hadd).
+  intros cb Hin. rewrite Hb in Hin. apply in_app_iff in Hin as [Hin|Hin].
+  - destruct (P cb Hin) as (m & r0 & b & Hm & E1 & E2 & Hb0 & FB).
+    assert (Hc0 : In (mcore m) (map mcore (cs_methods s'))) by (rewrite Hc; apply in_app_iff; left; apply in_map; exact Hm).
+    apply in_map_iff in Hc0 as (m' & Ec & Hm'). unfold mcore in Ec. injection Ec as ? ? ? ? ?.
+    exists m', r0, b. split; [exact Hm'|]. repeat split; congruence.
+  - destruct (Hadd cb Hin) as (Ep & r0 & b & Er & Hb0 & FB).
+    assert (Hc0 : In (core_of svc o md) (map mcore (cs_methods s'))) by (rewrite Hc; apply in_app_iff; right; left; reflexivity).
+    apply in_map_iff in Hc0 as (m' & Ec & Hm'). unfold mcore, core_of in Ec. injection Ec as E1 E2 E3 E4 E5.
+    exists m', r0, b. split; [exact Hm'|]. rewrite E1, E4. repeat split; auto.
 Qed.
 
 Definition svc_cores (defaults : sopts) (sv : svcreg) :=
@@ -375,4 +419,499 @@ Proof.
     destruct pre as [|p0 pr]; [left; reflexivity|right]. cbn [nonempty andb] in B.
     destruct (ends_with_dot (p0 :: pr)); [reflexivity|discriminate].
   - injection H as <- <-. left. split; [reflexivity|]. split; [reflexivity|]. eapply index_of_none; eauto.
+Qed.
+
+(** * WithRules *)
+Lemma add_rules_inv ms r : forall sel s s',
+  Inv ms s -> (forall m, In m sel -> has_method s (mf_path m) (mf_desc m)) ->
+  ofold (fun st m => add_rule ms st (mf_desc m) (mf_path m) r) s sel = Some s' ->
+  Inv ms s' /\ map mcore (cs_methods s') = map mcore (cs_methods s) /\
+  exists added, cs_bindings s' = cs_bindings s ++ added /\
+    (forall cb, In cb added -> exists m b, In m sel /\ In b (r_main r :: r_additional r) /\
+                 cb_method_path cb = mf_path m /\ from_binding ms (mf_desc m) (mf_path m) b cb) /\
+    (forall m, In m sel -> exists cb, In cb added /\ from_binding ms (mf_desc m) (mf_path m) (r_main r) cb /\
+                 cb_method_path cb = mf_path m) /\
+    (sel <> [] -> Forall (fun b => b_nested b = false) (r_additional r)).
+Proof.
+  induction sel as [|m rest IH]; intros s s' HI HM H; cbn [ofold] in H.
+  - injection H as <-. split; [exact HI|]. split; [reflexivity|]. exists []. rewrite app_nil_r.
+    split; [reflexivity|]. split; [intros ? []|]. split; [intros ? []|]. intros N. exfalso. apply N. reflexivity.
+  - destruct (add_rule ms s (mf_desc m) (mf_path m) r) as [s1|] eqn:AR; [|discriminate].
+    destruct (add_rule_inv _ _ _ _ _ _ HI AR (HM m (or_introl eq_refl))) as (HI1 & Hc1 & cb & cbs & Hb1 & FBs & Nn & _ & _).
+    assert (HM1 : forall m', In m' rest -> has_method s1 (mf_path m') (mf_desc m')).
+    { intros m' Hin. eapply has_method_core; [exact Hc1|]. apply HM. right. exact Hin. }
+    destruct (IH s1 s' HI1 HM1 H) as (HI' & Hc' & added & Hb' & Hsrc & Hall & _).
+    split; [exact HI'|]. split; [congruence|]. exists ((cb :: cbs) ++ added).
+    split; [rewrite Hb', Hb1, <- app_assoc; reflexivity|]. split; [|split; [|intros _; exact Nn]].
+    + intros cb' Hin. apply in_app_iff in Hin as [Hin|Hin].
+      * destruct (Forall2_in_r _ _ _ FBs cb' Hin) as (b & Hb & FB & Ep).
+        exists m, b. split; [left; reflexivity|]. split; [exact Hb|]. split; [exact Ep|exact FB].
+      * destruct (Hsrc cb' Hin) as (m' & b & Hm' & ?). exists m', b. split; [right; exact Hm'|assumption].
+    + intros m' [<-|Hin].
+      * inversion FBs as [|? ? ? ? (FB & Ep) _]; subst. exists cb. split; [left; reflexivity|]. split; assumption.
+      * destruct (Hall m' Hin) as (cb' & Hin' & ?). exists cb'. split; [apply in_app_iff; right; exact Hin'|assumption].
+Qed.
+
+Definition selected (r : rule) (wild : bool) (text : bytes) (l : list mfinal) : list mfinal :=
+  filter (fun m => selector_matches wild text (mf_full m)) l.
+
+Lemma apply_rule_inv ms s r s' :
+  Inv ms s -> apply_rule ms s r = Some s' ->
+  Inv ms s' /\ map mcore (cs_methods s') = map mcore (cs_methods s) /\
+  exists wild text added,
+    parse_selector (r_selector r) = Some (wild, text) /\
+    selected r wild text (cs_methods s) <> [] /\
+    Forall (fun b => b_nested b = false) (r_additional r) /\
+    cs_bindings s' = cs_bindings s ++ added /\
+    (forall cb, In cb added -> exists m b, In m (selected r wild text (cs_methods s)) /\ In b (r_main r :: r_additional r) /\
+                 cb_method_path cb = mf_path m /\ from_binding ms (mf_desc m) (mf_path m) b cb) /\
+    (forall m, In m (selected r wild text (cs_methods s)) ->
+       exists cb, In cb added /\ from_binding ms (mf_desc m) (mf_path m) (r_main r) cb /\ cb_method_path cb = mf_path m).
+Proof.
+  intros HI H. unfold apply_rule in H.
+  destruct (parse_selector (r_selector r)) as [[wild text]|] eqn:PS; [|discriminate].
+  fold (selected r wild text (cs_methods s)) in H.
+  destruct (selected r wild text (cs_methods s)) as [|m0 rest] eqn:Sel; [discriminate|]. rewrite <- Sel in *.
+  assert (HM : forall m, In m (selected r wild text (cs_methods s)) -> has_method s (mf_path m) (mf_desc m)).
+  { intros m Hin. unfold selected in Hin. apply filter_In in Hin as (Hin & _). exists m. repeat split; auto. }
+  destruct (add_rules_inv _ _ _ _ _ HI HM H) as (HI' & Hc' & added & Hb' & Hsrc & Hall & Nn).
+  split; [exact HI'|]. split; [exact Hc'|]. exists wild, text, added.
+  split; [reflexivity|]. split; [rewrite Sel; discriminate|]. split; [apply Nn; rewrite Sel; discriminate|].
+  split; [exact Hb'|]. split; assumption.
+Qed.
+
+Lemma register_methods_prov ms svc o : forall mds s s',
+  Inv ms s -> anno_prov ms s -> ofold (register_method ms svc o) s mds = Some s' -> anno_prov ms s'.
+Proof.
+  induction mds as [|md r IH]; intros s s' HI P H; cbn [ofold] in H.
+  - injection H as <-. exact P.
+  - destruct (register_method ms svc o s md) as [s1|] eqn:RM; [|discriminate].
+    destruct (register_method_inv _ _ _ _ _ _ HI RM) as (HI1 & _).
+    eapply IH; [exact HI1| |exact H]. eapply (register_method_prov ms svc o s md s1); eauto.
+Qed.
+
+Lemma register_services_prov ms codecs comps defaults : forall svs s s',
+  Inv ms s -> anno_prov ms s -> ofold (register_service ms codecs comps defaults) s svs = Some s' -> anno_prov ms s'.
+Proof.
+  induction svs as [|sv r IH]; intros s s' HI P H; cbn [ofold] in H.
+  - injection H as <-. exact P.
+  - destruct (register_service ms codecs comps defaults s sv) as [s1|] eqn:RS; [|discriminate].
+    destruct (register_service_inv _ _ _ _ _ _ _ HI RS) as (_ & HI1 & _).
+    eapply IH; [exact HI1| |exact H]. unfold register_service in RS.
+    destruct (opts_ok codecs comps (resolve_opts defaults (sr_opts sv))); [|discriminate].
+    eapply (register_methods_prov ms _ _ _ s s1); eauto.
+Qed.
+
+(** where an entry of the finished table comes from: an annotation of its method, or a rule whose
+    selector names the method *)
+Definition provenance (ms : list msgdesc) (rules : list rule) (s : cst) : Prop :=
+  forall cb, In cb (cs_bindings s) ->
+    exists m b, In m (cs_methods s) /\ mf_path m = cb_method_path cb /\ from_binding ms (mf_desc m) (mf_path m) b cb /\
+      ((exists r0, md_rule (mf_desc m) = Some r0 /\ In b (r_main r0 :: r_additional r0)) \/
+       (exists r wild text, In r rules /\ parse_selector (r_selector r) = Some (wild, text) /\
+                            selector_matches wild text (mf_full m) = true /\ In b (r_main r :: r_additional r))).
+
+Lemma provenance_of_anno ms rules s : anno_prov ms s -> provenance ms rules s.
+Proof.
+  intros P cb Hin. destruct (P cb Hin) as (m & r0 & b & Hm & E1 & E2 & Hb & FB).
+  exists m, b. repeat split; auto. left. exists r0. auto.
+Qed.
+
+Lemma provenance_mono ms rules r s : provenance ms rules s -> provenance ms (rules ++ [r]) s.
+Proof.
+  intros P cb Hin. destruct (P cb Hin) as (m & b & Hm & E & FB & [A|(r1 & w & t & Hr & ?)]).
+  - exists m, b. repeat split; auto.
+  - exists m, b. repeat split; auto. right. exists r1, w, t. split; [apply in_app_iff; left; exact Hr|assumption].
+Qed.
+
+Lemma apply_rule_prov ms rules s r s' :
+  Inv ms s -> provenance ms rules s -> apply_rule ms s r = Some s' -> provenance ms (rules ++ [r]) s'.
+Proof.
+  intros HI P H. destruct (apply_rule_inv _ _ _ _ HI H) as (_ & Hc & wild & text & added & PS & _ & _ & Hb & Hsrc & _).
+  intros cb Hin. rewrite Hb in Hin. apply in_app_iff in Hin as [Hin|Hin].
+  - destruct (provenance_mono _ _ r _ P cb Hin) as (m & b & Hm & E & FB & Src).
+    destruct (in_mcore m _ _ (eq_sym Hc) Hm) as (m' & Hm' & Ec). unfold mcore in Ec. injection Ec as E1 E2 E3 E4 E5.
+    exists m', b. split; [exact Hm'|]. rewrite E1, E2, E4. repeat split; auto.
+  - destruct (Hsrc cb Hin) as (m & b & Hsel & Hb0 & Ep & FB). unfold selected in Hsel. apply filter_In in Hsel as (Hm & Hmatch).
+    destruct (in_mcore m _ _ (eq_sym Hc) Hm) as (m' & Hm' & Ec). unfold mcore in Ec. injection Ec as E1 E2 E3 E4 E5.
+    exists m', b. split; [exact Hm'|]. rewrite E1, E2, E4. split; [symmetry; exact Ep|]. split; [exact FB|].
+    right. exists r, wild, text. split; [apply in_app_iff; right; left; reflexivity|]. auto.
+Qed.
+
+(** each rule, once applied: its selector is well formed, names at least one registered method,
+    and every method it names has an entry made from the rule's main pattern *)
+Definition rule_applied (ms : list msgdesc) (s : cst) (r : rule) : Prop :=
+  exists wild text,
+    parse_selector (r_selector r) = Some (wild, text) /\
+    (exists m, In m (cs_methods s) /\ selector_matches wild text (mf_full m) = true) /\
+    Forall (fun b => b_nested b = false) (r_additional r) /\
+    forall m, In m (cs_methods s) -> selector_matches wild text (mf_full m) = true ->
+      exists cb, In cb (cs_bindings s) /\ from_binding ms (mf_desc m) (mf_path m) (r_main r) cb /\ cb_method_path cb = mf_path m.
+
+Lemma rule_applied_later ms s s' r :
+  map mcore (cs_methods s') = map mcore (cs_methods s) -> (exists more, cs_bindings s' = cs_bindings s ++ more) ->
+  rule_applied ms s r -> rule_applied ms s' r.
+Proof.
+  intros Hc (more & Hb) (wild & text & PS & (m0 & Hm0 & Hmatch0) & Nn & Hall). exists wild, text.
+  split; [exact PS|]. split; [|split; [exact Nn|]].
+  - destruct (in_mcore m0 _ _ (eq_sym Hc) Hm0) as (m' & Hm' & Ec). unfold mcore in Ec. injection Ec as E1 E2 E3 E4 E5.
+    exists m'. split; [exact Hm'|]. rewrite E2. exact Hmatch0.
+  - intros m Hm Hmatch. destruct (in_mcore m _ _ Hc Hm) as (m1 & Hm1 & Ec). unfold mcore in Ec. injection Ec as E1 E2 E3 E4 E5.
+    rewrite <- E2 in Hmatch. destruct (Hall m1 Hm1 Hmatch) as (cb & Hin & FB & Ep).
+    exists cb. split; [rewrite Hb; apply in_app_iff; left; exact Hin|]. rewrite <- E1, <- E4. split; assumption.
+Qed.
+
+Lemma apply_rules_inv ms : forall rules done s s',
+  Inv ms s -> provenance ms done s -> Forall (rule_applied ms s) done ->
+  ofold (apply_rule ms) s rules = Some s' ->
+  Inv ms s' /\ map mcore (cs_methods s') = map mcore (cs_methods s) /\
+  provenance ms (done ++ rules) s' /\ Forall (rule_applied ms s') (done ++ rules).
+Proof.
+  induction rules as [|r rest IH]; intros done s s' HI P F H; cbn [ofold] in H.
+  - injection H as <-. rewrite app_nil_r. auto.
+  - destruct (apply_rule ms s r) as [s1|] eqn:AR; [|discriminate].
+    destruct (apply_rule_inv _ _ _ _ HI AR) as (HI1 & Hc1 & wild & text & added & PS & Hne & Nn & Hb1 & Hsrc & Hall).
+    assert (P1 : provenance ms (done ++ [r]) s1) by (exact (apply_rule_prov ms done s r s1 HI P AR)).
+    assert (F1 : Forall (rule_applied ms s1) (done ++ [r])).
+    { apply Forall_app. split.
+      - eapply Forall_impl; [|exact F]. intros r0. apply rule_applied_later; [exact Hc1|exists added; exact Hb1].
+      - constructor; [|constructor]. exists wild, text. split; [exact PS|]. split; [|split; [exact Nn|]].
+        + destruct (selected r wild text (cs_methods s)) as [|m0 l0] eqn:Sel; [exfalso; apply Hne; reflexivity|].
+          assert (Hin0 : In m0 (selected r wild text (cs_methods s))) by (rewrite Sel; left; reflexivity).
+          unfold selected in Hin0. apply filter_In in Hin0 as (Hm0 & Hmatch0).
+          destruct (in_mcore m0 _ _ (eq_sym Hc1) Hm0) as (m' & Hm' & Ec). unfold mcore in Ec. injection Ec as E1 E2 E3 E4 E5.
+          exists m'. split; [exact Hm'|]. rewrite E2. exact Hmatch0.
+        + intros m Hm Hmatch. destruct (in_mcore m _ _ Hc1 Hm) as (m1 & Hm1 & Ec). unfold mcore in Ec. injection Ec as E1 E2 E3 E4 E5.
+          assert (Hsel : In m1 (selected r wild text (cs_methods s))).
+          { unfold selected. apply filter_In. split; [exact Hm1|]. rewrite E2. exact Hmatch. }
+          destruct (Hall m1 Hsel) as (cb & Hin & FB & Ep). exists cb.
+          split; [rewrite Hb1; apply in_app_iff; right; exact Hin|]. rewrite <- E1, <- E4. split; assumption. }
+    destruct (IH (done ++ [r]) s1 s' HI1 P1 F1 H) as (HI' & Hc' & P' & F').
+    split; [exact HI'|]. split; [congruence|]. rewrite <- app_assoc in P', F'. split; assumption.
+Qed.
+
+(** * the finished table *)
+Theorem new_transcoder_sound ms c s :
+  new_transcoder ms c = Some s ->
+  let codecs := builtin_codecs ++ t_codecs c in
+  let comps := builtin_compressors ++ t_comps c in
+  let defaults := resolve_opts builtin_sopts (t_defaults c) in
+  Forall (fun sv => opts_ok codecs comps (resolve_opts defaults (sr_opts sv)) = true) (t_services c) /\
+  Inv ms s /\
+  map mcore (cs_methods s) = flat_map (svc_cores defaults) (t_services c) /\
+  provenance ms (t_rules c) s /\
+  Forall (rule_applied ms s) (t_rules c) /\
+  Forall (fun sv => rest_only_ok s sv defaults = true) (t_services c).
+Proof.
+  unfold new_transcoder. intros H. cbv zeta.
+  set (codecs := builtin_codecs ++ t_codecs c) in *. set (comps := builtin_compressors ++ t_comps c) in *.
+  set (defaults := resolve_opts builtin_sopts (t_defaults c)) in *.
+  destruct (ofold (register_service ms codecs comps defaults) (mkCst [] [] []) (t_services c)) as [s1|] eqn:RS; [|discriminate].
+  destruct (ofold (apply_rule ms) s1 (t_rules c)) as [s2|] eqn:AR; [|discriminate].
+  destruct (forallb (fun sv => rest_only_ok s2 sv defaults) (t_services c)) eqn:RO; [|discriminate].
+  injection H as <-.
+  destruct (register_services_inv _ _ _ _ _ _ _ (Inv_empty ms) RS) as (Oks & HI1 & Hc1). cbn [cs_methods map app] in Hc1.
+  assert (P1 : anno_prov ms s1).
+  { eapply (register_services_prov ms codecs comps defaults (t_services c) (mkCst [] [] [])); eauto.
+    - apply Inv_empty.
+    - intros cb []. }
+  destruct (apply_rules_inv ms (t_rules c) [] s1 s2 HI1 (provenance_of_anno _ _ _ P1) (Forall_nil _) AR) as (HI2 & Hc2 & P2 & F2).
+  cbn [app] in P2, F2.
+  split; [exact Oks|]. split; [exact HI2|]. split; [congruence|]. split; [exact P2|]. split; [exact F2|].
+  apply Forall_forall. intros sv Hin. exact (proj1 (forallb_forall _ _) RO sv Hin).
+Qed.
+
+(** * every inserted route has its entry *)
+Lemma build_from_inserted rs : forall items idx,
+  key_unique items ->
+  snd (build_from items idx rs) = repeat true (length rs) ->
+  forall k r, nth_error rs k = Some r ->
+    exists it, In it (fst (build_from items idx rs)) /\ it_idx it = (idx + k)%nat /\ it_tmpl it = r_path r /\
+               it_rem it = r_path r /\ it_verb it = r_verb r /\ it_meth it = r_meth r.
+Proof.
+  induction rs as [|r0 rest IH]; intros items idx U H k r Hn; [destruct k; discriminate|].
+  cbn [build_from] in *. destruct (insert items idx r0) as [items' ok] eqn:Hi.
+  destruct (build_from items' (S idx) rest) as [final oks] eqn:B. cbn [snd fst length repeat] in *.
+  injection H as Hok Hoks. subst ok.
+  unfold insert in Hi. destruct (existsb (same_key (r_path r0) (r_verb r0) (r_meth r0)) items) eqn:Ex; [discriminate|].
+  injection Hi as <-.
+  assert (U' : key_unique (items ++ [mkItem idx (r_path r0) (r_path r0) (r_verb r0) (r_meth r0)])).
+  { intros a b Ha Hb E1 E2 E3. apply in_app_iff in Ha, Hb.
+    destruct Ha as [Ha|[<-|[]]], Hb as [Hb|[<-|[]]]; auto.
+    - exfalso. apply (existsb_same_key_false _ _ _ _ Ex a Ha). simpl in *. tauto.
+    - exfalso. apply (existsb_same_key_false _ _ _ _ Ex b Hb). simpl in *. intuition congruence. }
+  destruct k as [|k].
+  - injection Hn as <-. exists (mkItem idx (r_path r0) (r_path r0) (r_verb r0) (r_meth r0)).
+    split; [|cbn; rewrite Nat.add_0_r; repeat split; reflexivity].
+    pose proof (build_from_spec rest _ (S idx) U') as Sp. rewrite B in Sp. cbn [fst] in Sp.
+    destruct Sp as (_ & Sub & _). apply Sub. apply in_app_iff. right. left. reflexivity.
+  - specialize (IH _ (S idx) U'). rewrite B in IH. cbn [snd fst] in IH.
+    destruct (IH Hoks k r Hn) as (it & Hin & Hidx & ?). exists it. split; [exact Hin|]. split; [lia|assumption].
+Qed.
+
+Lemma pick_method_some m l it : In it l -> it_meth it = m -> exists x, pick_method m l = Some x.
+Proof.
+  intros Hin E. destruct (pick_method m l) eqn:P; [eauto|].
+  exfalso. exact (proj1 (pick_method_none m l) P it Hin E).
+Qed.
+
+(** A request whose path matches the template of an accepted binding, and no other accepted
+    template with that verb, is routed to that binding when sent with the binding's HTTP method. *)
+Theorem binding_reachable ms s i cb path :
+  Inv ms s -> nth_error (cs_bindings s) i = Some cb ->
+  tmatch (r_path (cb_route cb)) path = true ->
+  (forall cb', In cb' (cs_bindings s) -> tmatch (r_path (cb_route cb')) path = true ->
+               r_verb (cb_route cb') = r_verb (cb_route cb) -> r_path (cb_route cb') = r_path (cb_route cb)) ->
+  exists it, get_target (r_meth (cb_route cb)) (Router.find (cs_items s) path (r_verb (cb_route cb))) = Some it /\ it_idx it = i.
+Proof.
+  intros (Hb & Hw & _) Hn Tm Uniq. set (rs := routes_of s) in *. set (r := cb_route cb) in *.
+  assert (Hnr : nth_error rs i = Some r) by (unfold rs, routes_of; rewrite nth_error_map, Hn; reflexivity).
+  assert (Eit : cs_items s = items_of rs) by (unfold items_of; rewrite Hb; reflexivity).
+  assert (Hfl : snd (build_from [] 0 rs) = repeat true (length rs)).
+  { unfold build in Hb. rewrite Hb. cbn [snd]. unfold rs, routes_of. rewrite map_length. reflexivity. }
+  destruct (build_from_inserted rs [] 0%nat (fun a b (Ha : In a []) => match Ha with end) Hfl i r Hnr)
+    as (it0 & Hin0 & Hidx0 & Ht0 & Hr0 & Hv0 & Hm0).
+  cbn [Nat.add] in Hidx0. fold (build rs) in Hin0. fold (items_of rs) in Hin0.
+  rewrite Eit.
+  (* something is found *)
+  destruct (Router.find (items_of rs) path (r_verb r)) as [|a0 l0] eqn:Ef.
+  { exfalso. apply (proj1 (route_404 rs path (r_verb r) Hw) Ef it0 Hin0). rewrite Hr0. split; [exact Tm|exact Hv0]. }
+  rewrite <- Ef.
+  assert (Ha0 : In a0 (Router.find (items_of rs) path (r_verb r))) by (rewrite Ef; left; reflexivity).
+  (* what is found belongs to this template *)
+  assert (Tmpl : forall a, In a (Router.find (items_of rs) path (r_verb r)) -> it_tmpl a = r_path r).
+  { intros a Ha. destruct (find_sound path _ _ _ (items_of_wf rs Hw) Ha) as (ia & Ia & Sa & Tma & Va & _).
+    destruct (items_of_spec rs) as (_ & Sp). destruct (Sp ia Ia) as (ra & Hna & Hta & Hra & Hva & _).
+    destruct Sa as (_ & Sat & _). rewrite Sat, Hta.
+    assert (Hcb : exists cb', In cb' (cs_bindings s) /\ cb_route cb' = ra).
+    { apply nth_error_In in Hna. unfold rs, routes_of in Hna. apply in_map_iff in Hna as (cb' & E & Hin'). eauto. }
+    destruct Hcb as (cb' & Hin' & <-). apply Uniq; [exact Hin'| |congruence]. rewrite <- Hra. exact Tma. }
+  destruct (route_whole_template rs path (r_verb r) a0 it0 Ha0 Hin0) as (it' & Hin' & Se).
+  { rewrite Ht0. symmetry. apply Tmpl. exact Ha0. }
+  { exact Hv0. }
+  destruct Se as (Si & _ & _ & Sm).
+  destruct (pick_method_some (r_meth r) _ it' Hin') as (x & Px); [congruence|].
+  exists x. unfold get_target. rewrite Px. split; [reflexivity|].
+  destruct (pick_method_in _ _ _ Px) as (Hx & Mx).
+  assert (x = it') as ->; [|congruence].
+  apply (find_meth_unique rs path (r_verb r) Hw); auto. congruence.
+Qed.
+
+(** * options: the last option of a kind wins, a service's own before the defaults *)
+Fixpoint last_some {A} (f : sopt -> option A) (opts : list sopt) (acc : option A) : option A :=
+  match opts with [] => acc | o :: r => last_some f r (match f o with Some a => Some a | None => acc end) end.
+
+Definition get_protocols (o : sopt) := match o with OProtocols l => Some l | _ => None end.
+Definition get_codecs (o : sopt) := match o with OCodecs l => Some l | _ => None end.
+Definition get_comps (o : sopt) := match o with OCompression l => Some l | _ => None end.
+Definition get_maxbuf (o : sopt) := match o with OMaxBuf n => Some n | _ => None end.
+Definition get_maxget (o : sopt) := match o with OMaxGet n => Some n | _ => None end.
+
+Definition or_else {A} (x : option A) (d : A) : A := match x with Some a => a | None => d end.
+
+Lemma resolve_opts_lookup opts : forall d,
+  let o := resolve_opts d opts in
+  so_protocols o = or_else (last_some get_protocols opts None) (so_protocols d) /\
+  so_codecs o = or_else (last_some get_codecs opts None) (so_codecs d) /\
+  so_preferred o = or_else (option_map (fun l => hd [] l) (last_some get_codecs opts None)) (so_preferred d) /\
+  so_comps o = or_else (last_some get_comps opts None) (so_comps d) /\
+  so_maxbuf o = or_else (last_some get_maxbuf opts None) (so_maxbuf d) /\
+  so_maxget o = or_else (last_some get_maxget opts None) (so_maxget d).
+Proof.
+  assert (G : forall A (f : sopt -> option A) l acc, last_some f l acc = match last_some f l None with Some a => Some a | None => acc end).
+  { intros A f l. induction l as [|x r IH]; intros acc; cbn [last_some]; [reflexivity|].
+    rewrite IH. rewrite (IH (match f x with Some a => Some a | None => None end)).
+    destruct (last_some f r None); [reflexivity|]. destruct (f x); reflexivity. }
+  unfold resolve_opts. induction opts as [|x r IH]; intros d; cbn [fold_left last_some].
+  - cbn. repeat split; reflexivity.
+  - specialize (IH (apply_opt d x)). cbv zeta in *. destruct IH as (I1 & I2 & I3 & I4 & I5 & I6).
+    rewrite I1, I2, I3, I4, I5, I6.
+    rewrite (G _ get_protocols r (match get_protocols x with Some a => Some a | None => None end)),
+            (G _ get_codecs r (match get_codecs x with Some a => Some a | None => None end)),
+            (G _ get_comps r (match get_comps x with Some a => Some a | None => None end)),
+            (G _ get_maxbuf r (match get_maxbuf x with Some a => Some a | None => None end)),
+            (G _ get_maxget r (match get_maxget x with Some a => Some a | None => None end)).
+    destruct x; cbn;
+      destruct (last_some get_protocols r None), (last_some get_codecs r None), (last_some get_comps r None),
+               (last_some get_maxbuf r None), (last_some get_maxget r None); cbn; repeat split; try reflexivity;
+      destruct l; reflexivity.
+Qed.
+
+(** * refusals, as contrapositives of soundness *)
+Lemma reject_bad_options ms c sv :
+  In sv (t_services c) ->
+  opts_ok (builtin_codecs ++ t_codecs c) (builtin_compressors ++ t_comps c)
+          (resolve_opts (resolve_opts builtin_sopts (t_defaults c)) (sr_opts sv)) = false ->
+  new_transcoder ms c = None.
+Proof.
+  intros Hin Hbad. destruct (new_transcoder ms c) as [s|] eqn:E; [exfalso|reflexivity].
+  destruct (new_transcoder_sound ms c s E) as (Oks & _). rewrite Forall_forall in Oks.
+  specialize (Oks sv Hin). cbv zeta in Oks. congruence.
+Qed.
+
+Lemma forallb_false_intro {A} (f : A -> bool) l x : In x l -> f x = false -> forallb f l = false.
+Proof.
+  intros Hin Hf. destruct (forallb f l) eqn:E; [|reflexivity].
+  rewrite forallb_forall in E. rewrite (E x Hin) in Hf. discriminate.
+Qed.
+
+Lemma opts_ok_cases codecs comps o :
+  (so_protocols o = [] \/ (exists p, In p (so_protocols o) /\ known_protocol p = false) \/
+   so_codecs o = [] \/ (exists n, In n (so_codecs o) /\ bmem n codecs = false) \/
+   (exists n, In n (so_comps o) /\ bmem n comps = false)) ->
+  opts_ok codecs comps o = false.
+Proof.
+  unfold opts_ok. intros [E|[(p & Hp & Kp)|[E|[(n & Hn & Kn)|(n & Hn & Kn)]]]].
+  - rewrite E. reflexivity.
+  - rewrite (forallb_false_intro known_protocol _ p Hp Kp). rewrite Bool.andb_false_r. reflexivity.
+  - rewrite E. cbn [nonempty]. rewrite Bool.andb_false_r. reflexivity.
+  - rewrite (forallb_false_intro (fun c => bmem c codecs) _ n Hn Kn). repeat rewrite Bool.andb_false_r. reflexivity.
+  - rewrite (forallb_false_intro (fun c => bmem c comps) _ n Hn Kn). repeat rewrite Bool.andb_false_r. reflexivity.
+Qed.
+
+Definition core_path {A B C D} (core : bytes * A * B * C * D) : bytes := fst (fst (fst (fst core))).
+Definition core_full {B C D} (core : bytes * bytes * B * C * D) : bytes := snd (fst (fst (fst core))).
+
+Lemma reject_duplicate_method ms c :
+  ~ NoDup (map (fun core => fst (fst (fst (fst core))))
+               (flat_map (svc_cores (resolve_opts builtin_sopts (t_defaults c))) (t_services c))) ->
+  new_transcoder ms c = None.
+Proof.
+  intros Hd. destruct (new_transcoder ms c) as [s|] eqn:E; [exfalso|reflexivity].
+  destruct (new_transcoder_sound ms c s E) as (_ & (_ & _ & Hn & _) & Hc & _). cbv zeta in Hc.
+  apply Hd. rewrite <- Hc, map_map. exact Hn.
+Qed.
+
+Lemma reject_bad_rule ms c r :
+  In r (t_rules c) ->
+  (parse_selector (r_selector r) = None \/
+   (forall wild text, parse_selector (r_selector r) = Some (wild, text) ->
+      forall core, In core (flat_map (svc_cores (resolve_opts builtin_sopts (t_defaults c))) (t_services c)) ->
+                   selector_matches wild text (snd (fst (fst (fst core)))) = false) \/
+   (exists b, In b (r_additional r) /\ b_nested b = true)) ->
+  new_transcoder ms c = None.
+Proof.
+  intros Hin Hbad. destruct (new_transcoder ms c) as [s|] eqn:E; [exfalso|reflexivity].
+  destruct (new_transcoder_sound ms c s E) as (_ & _ & Hc & _ & F & _). cbv zeta in Hc.
+  rewrite Forall_forall in F. destruct (F r Hin) as (wild & text & PS & (m & Hm & Hmatch) & Nn & _).
+  destruct Hbad as [N|[Nm|(b & Hb & Nb)]].
+  - congruence.
+  - assert (Hcore : In (mcore m) (flat_map (svc_cores (resolve_opts builtin_sopts (t_defaults c))) (t_services c))).
+    { rewrite <- Hc. apply in_map. exact Hm. }
+    specialize (Nm wild text PS (mcore m) Hcore). cbn in Nm. congruence.
+  - rewrite Forall_forall in Nn. rewrite (Nn b Hb) in Nb. discriminate.
+Qed.
+
+Lemma from_binding_fields ms md mpath b cb :
+  from_binding ms md mpath b cb ->
+  wf_tmpl (r_path (cb_route cb)) = true /\
+  body_fields ms (md_in md) (b_body b) <> None /\ body_fields ms (md_out md) (b_resp b) <> None /\
+  (forall v, In v (cb_vars cb) ->
+     exists fs f, resolve_path ms (md_in md) v = Some fs /\ last_field fs = Some f /\ var_field_ok f = true).
+Proof.
+  intros (meth & path & verb & vars & _ & _ & _ & Hp & Hmt). unfold make_target in Hmt.
+  destruct (body_fields ms (md_in md) (b_body b)) eqn:B1; [|discriminate].
+  destruct (body_fields ms (md_out md) (b_resp b)) eqn:B2; [|discriminate].
+  match type of Hmt with (if forallb ?f vars then _ else _) = _ => destruct (forallb f vars) eqn:Fv; [|discriminate] end.
+  injection Hmt as <-. cbn [cb_route r_path cb_vars].
+  split; [eapply parse_template_wf; exact Hp|]. split; [discriminate|]. split; [discriminate|].
+  intros v Hv. apply in_map_iff in Hv as (tv & <- & Htv). rewrite forallb_forall in Fv. specialize (Fv tv Htv). cbn beta in Fv.
+  destruct (resolve_path ms (md_in md) (tv_field tv)) as [fs|]; [|discriminate].
+  destruct (last_field fs) as [f|] eqn:Lf; [|discriminate]. exists fs, f. repeat split; auto.
+Qed.
+
+Lemma rest_only_bound ms c s sv :
+  new_transcoder ms c = Some s -> In sv (t_services c) ->
+  rest_only (resolve_opts (resolve_opts builtin_sopts (t_defaults c)) (sr_opts sv)) = true ->
+  exists m, In m (cs_methods s) /\ mf_svc m = sd_name (sr_desc sv) /\ mf_rule m <> None.
+Proof.
+  intros H Hin Ro. destruct (new_transcoder_sound ms c s H) as (_ & _ & _ & _ & _ & F). cbv zeta in F.
+  rewrite Forall_forall in F. specialize (F sv Hin). unfold rest_only_ok in F. rewrite Ro in F.
+  apply existsb_exists in F as (m & Hm & Hb). apply Bool.andb_true_iff in Hb as (E1 & E2). apply bytes_eqb_eq in E1.
+  exists m. split; [exact Hm|]. split; [exact E1|]. destruct (mf_rule m); [discriminate|discriminate].
+Qed.
+
+(** * acceptance without REST rules *)
+Lemma NoDup_move {A} (l r : list A) x : NoDup (l ++ x :: r) -> NoDup ((l ++ [x]) ++ r).
+Proof. rewrite <- app_assoc. cbn [app]. auto. Qed.
+
+Lemma register_methods_plain ms svc o : forall mds s,
+  Forall (fun md => md_rule md = None) mds ->
+  NoDup (map mf_path (cs_methods s) ++ map (fun md => method_path svc (md_name md)) mds) ->
+  exists s', ofold (register_method ms svc o) s mds = Some s' /\
+             map mf_path (cs_methods s') = map mf_path (cs_methods s) ++ map (fun md => method_path svc (md_name md)) mds /\
+             cs_bindings s' = cs_bindings s /\
+             (Forall (fun m => mf_rule m = None) (cs_methods s) -> Forall (fun m => mf_rule m = None) (cs_methods s')) /\
+             (forall m, In m (cs_methods s') -> In m (cs_methods s) \/ mf_svc m = svc).
+Proof.
+  induction mds as [|md r IH]; intros s Hn Hd; cbn [ofold map].
+  - exists s. split; [reflexivity|]. split; [rewrite app_nil_r; reflexivity|]. split; [reflexivity|]. split; auto.
+  - inversion Hn as [|? ? Hmd Hr]; subst.
+    unfold register_method at 1.
+    assert (Fresh : existsb (fun m => bytes_eqb (mf_path m) (method_path svc (md_name md))) (cs_methods s) = false).
+    { destruct (existsb _ (cs_methods s)) eqn:Ex; [|reflexivity]. exfalso.
+      apply existsb_exists in Ex as (m & Hm & Eb). apply bytes_eqb_eq in Eb.
+      cbn [map] in Hd. apply NoDup_remove_2 in Hd. apply Hd. apply in_app_iff. left. rewrite <- Eb. apply in_map. exact Hm. }
+    rewrite Fresh, Hmd.
+    set (mnew := mkMf (method_path svc (md_name md)) (method_full svc (md_name md)) svc md o None).
+    set (s1 := mkCst (cs_items s) (cs_bindings s) (cs_methods s ++ [mnew])).
+    destruct (IH s1 Hr) as (s' & Hs' & Hp' & Hb' & Hk & Hsv).
+    { unfold s1. cbn [cs_methods]. rewrite map_app. cbn [map]. apply NoDup_move. exact Hd. }
+    exists s'. split; [exact Hs'|]. split; [|split; [exact Hb'|split]].
+    + rewrite Hp'. unfold s1. cbn [cs_methods]. rewrite map_app, <- app_assoc. reflexivity.
+    + intros Hall. apply Hk. unfold s1. cbn [cs_methods].
+      apply Forall_app. split; [exact Hall|]. constructor; [reflexivity|constructor].
+    + intros m Hm. destruct (Hsv m Hm) as [Hin|E]; [|right; exact E]. unfold s1 in Hin. cbn [cs_methods] in Hin.
+      apply in_app_iff in Hin as [Hin|[<-|[]]]; [left; exact Hin|right; reflexivity].
+Qed.
+
+Lemma svc_cores_paths defaults sv :
+  map (fun core => fst (fst (fst (fst core)))) (svc_cores defaults sv) =
+  map (fun md => method_path (sd_name (sr_desc sv)) (md_name md)) (sd_methods (sr_desc sv)).
+Proof. unfold svc_cores. rewrite map_map. reflexivity. Qed.
+
+Lemma NoDup_app_l {A} (l r : list A) : NoDup (l ++ r) -> NoDup l.
+Proof.
+  induction l as [|x l IH]; intros H; [constructor|]. cbn [app] in H. inversion H as [|? ? Hx Hr]; subst.
+  constructor; [intros Hin; apply Hx; apply in_app_iff; left; exact Hin|apply IH; exact Hr].
+Qed.
+
+Lemma register_services_plain ms codecs comps defaults : forall svs s,
+  Forall (fun sv => Forall (fun md => md_rule md = None) (sd_methods (sr_desc sv))) svs ->
+  Forall (fun sv => opts_ok codecs comps (resolve_opts defaults (sr_opts sv)) = true) svs ->
+  NoDup (map mf_path (cs_methods s) ++ map (fun core => fst (fst (fst (fst core)))) (flat_map (svc_cores defaults) svs)) ->
+  exists s', ofold (register_service ms codecs comps defaults) s svs = Some s' /\
+             cs_bindings s' = cs_bindings s /\
+             (Forall (fun m => mf_rule m = None) (cs_methods s) -> Forall (fun m => mf_rule m = None) (cs_methods s')).
+Proof.
+  induction svs as [|sv r IH]; intros s Hn Ho Hd; cbn [ofold].
+  - exists s. auto.
+  - inversion Hn as [|? ? Hn1 Hnr]; subst. inversion Ho as [|? ? Ho1 Hor]; subst.
+    unfold register_service at 1. rewrite Ho1.
+    cbn [flat_map] in Hd. rewrite map_app, svc_cores_paths, app_assoc in Hd.
+    destruct (register_methods_plain ms (sd_name (sr_desc sv)) (resolve_opts defaults (sr_opts sv)) (sd_methods (sr_desc sv)) s Hn1)
+      as (s1 & Hs1 & Hp1 & Hb1 & Hk1 & _).
+    { apply NoDup_app_l in Hd. exact Hd. }
+    rewrite Hs1. destruct (IH s1 Hnr Hor) as (s' & Hs' & Hb' & Hk').
+    { rewrite Hp1. exact Hd. }
+    exists s'. split; [exact Hs'|]. split; [congruence|]. auto.
+Qed.
+
+Lemma accept_plain ms c :
+  t_rules c = [] ->
+  Forall (fun sv => Forall (fun md => md_rule md = None) (sd_methods (sr_desc sv))) (t_services c) ->
+  Forall (fun sv => opts_ok (builtin_codecs ++ t_codecs c) (builtin_compressors ++ t_comps c)
+                            (resolve_opts (resolve_opts builtin_sopts (t_defaults c)) (sr_opts sv)) = true) (t_services c) ->
+  Forall (fun sv => rest_only (resolve_opts (resolve_opts builtin_sopts (t_defaults c)) (sr_opts sv)) = false) (t_services c) ->
+  NoDup (map (fun core => fst (fst (fst (fst core))))
+             (flat_map (svc_cores (resolve_opts builtin_sopts (t_defaults c))) (t_services c))) ->
+  new_transcoder ms c <> None.
+Proof.
+  intros Hr Hn Ho Hro Hd. unfold new_transcoder.
+  destruct (register_services_plain ms _ _ _ (t_services c) (mkCst [] [] []) Hn Ho) as (s1 & Hs1 & _ & _).
+  { cbn [cs_methods map app]. exact Hd. }
+  rewrite Hs1, Hr. cbn [ofold].
+  assert (F : forallb (fun sv => rest_only_ok s1 sv (resolve_opts builtin_sopts (t_defaults c))) (t_services c) = true).
+  { apply forallb_forall. intros sv Hin. rewrite Forall_forall in Hro. unfold rest_only_ok. rewrite (Hro sv Hin). reflexivity. }
+  rewrite F. discriminate.
 Qed.
